@@ -96,6 +96,64 @@ def file_leg(a, b):
     finally:
         shutil.rmtree(d, ignore_errors=True)
 
+PROBES = ['/cells/*/source', '/cells/*/outputs', '/cells/*/attachments', '/metadata', '/cells/*/id', '/cells/*/metadata',
+          '/cells/*/outputs/*/metadata', '/cells/*', '/cells/*/outputs/*', '/cells', '/metadata/custom', '/cells/*/metadata/tags']
+
+def differ_code(f):
+    import nbdime.diffing.notebooks as N
+    if f is N.diff_ignore: return ['DfIgnore']
+    n = getattr(f, '__name__', None)
+    names = {'diff': 'DfDiff', 'diff_single_outputs': 'DfSingleOutputs', 'diff_attachments': 'DfAttachments',
+             'diff_string_lines': 'DfStringLines', 'diff_sequence_multilevel': 'DfSeqMultilevel'}
+    if n in names: return [names[n]]
+    if n == 'ignored_diff' and f.__closure__:
+        cells = {k: c.cell_contents for k, c in zip(f.__code__.co_freevars, f.__closure__)}
+        return ['DfIgnoreKeys', differ_code(cells['inner_differ']), list(cells['ignore_keys'])]
+    return ['?', repr(f)]
+
+def global_state():
+    import nbdime.diffing.notebooks as N
+    import nbdime.merging.generic as MG
+    t = N.notebook_differs
+    def look(p):
+        if dict.__contains__(t, p): return dict.__getitem__(t, p)
+        if p in t.default_values: return t.default_values[p]
+        return t.default_factory()
+    return {'lookups': [differ_code(look(p)) for p in PROBES],
+            'pred_keys': sorted(dict.keys(N.notebook_predicates)),
+            'merge_strings_recursion': bool(getattr(MG._merge_strings, 'recursion', False))}
+
+def run_history(t):
+    import argparse, nbdime
+    import nbdime.diffing.notebooks as N
+    from nbdime.merging.notebooks import merge_notebooks
+    out = []
+    for o in t['ops']:
+        k = o['kind']
+        try:
+            if k == 'diff':
+                d = nbdime.diff_notebooks(as_nb(o['a']), as_nb(o['b'])); r = {'ok': clean(d)}
+            elif k == 'gdiff':
+                d = nbdime.diff(copy.deepcopy(o['a']), copy.deepcopy(o['b'])); r = {'ok': clean(d)}
+            elif k == 'merge':
+                args = argparse.Namespace(merge_strategy=o.get('strategy', 'inline'), input_strategy=None, output_strategy=None,
+                                          ignore_transients=True, log_level='INFO')
+                m, decs = merge_notebooks(as_nb(o['base']), as_nb(o['local']), as_nb(o['remote']), args)
+                r = {'ok': [clean(m), [bool(d.conflict) for d in decs]]}
+            elif k == 'targets':
+                N.set_notebook_diff_targets(*o['shown']); r = {'ok': None}
+            elif k == 'ignores':
+                N.set_notebook_diff_ignores(o['mapping']); r = {'ok': None}
+            elif k == 'reset':
+                N.reset_notebook_differ(); r = {'ok': None}
+            else:
+                raise ValueError(k)
+        except Exception as e:
+            r = exc_info(e)
+        r['state'] = global_state()
+        out.append(r)
+    return {'ok': out}
+
 def run_task(t):
     import nbdime
     from nbdime.diff_utils import to_clean_dicts, to_diffentry_dicts
@@ -169,6 +227,8 @@ def run_task(t):
             return {'ok': dj, 'patched': pr, 'table_keys': sorted(differs), 'oracles': orc}
         finally:
             pass
+    if op == 'history':
+        return run_history(t)
     if op == 'merge_decisions':
         from nbdime.merging.notebooks import decide_notebook_merge
         import argparse
